@@ -116,7 +116,7 @@ def tied_items(ob):
             D = [p[i] - x2[i] + 0.5 for i in range(3)]
             dp = [v - math.floor(v) - 0.5 for v in D]
             ds.append(sdm.vector_length(*dp) + (0.0001 if k else 0.0))
-        far = [v for v in ds if v > 0.01]        # the coincidence of an atom with itself is not a contact
+        far = [v for v in ds if v > 0.01 or a1 != a2]        # the coincidence of an atom with itself is not a contact
         best = min(far) if far else 0.0
         if sum(1 for v in far if abs(v - best) < 1e-9) > 1:
             tied.add((a1, a2))
@@ -176,9 +176,9 @@ def glen(G, v):
 SHIFTS = list(itertools.product(range(-3, 4), repeat=3))
 
 
-def true_min(G, ops, x1, x2):
-    """shortest distance between x2 and any symmetry equivalent (operator x lattice translation) of x1, excluding
-    the trivial coincidence (distance below 0.01); returns (dist, operator number)"""
+def true_min(G, ops, x1, x2, same=True):
+    """shortest distance between x2 and any symmetry equivalent (operator x lattice translation) of x1; for an atom and itself (same)
+    the trivial coincidence (distance below 0.01) is excluded, two different atoms on one site have the distance zero; returns (dist, operator number)"""
     best = (1e9, -1)
     for n, (R, t) in enumerate(ops):
         p = [sum(R[i][k] * x1[k] for k in range(3)) + float(t[i]) for i in range(3)]
@@ -186,6 +186,6 @@ def true_min(G, ops, x1, x2):
         base = [v - math.floor(v + 0.5) for v in d0]
         for s in SHIFTS:
             d = glen(G, [base[i] + s[i] for i in range(3)])
-            if d > 0.01 and d < best[0] - 1e-12:
+            if (d > 0.01 or not same) and d < best[0] - 1e-12:
                 best = (d, n)
     return best
